@@ -111,7 +111,7 @@ def probe_perm(ctx, payload):
     common_buckets(ctx, base, meta)
     k = len(case["teams"])
     noise = tol.wt_noise(case, base.cfg, base.tau, meta["levels"])
-    munoise = tol.mu_noise(case)
+    munoise = tol.mu_noise(case, tau=base.tau, beta=base.cfg["beta"])
     vnoise = tol.vt_noise(case, base.cfg, base.tau, meta["levels"])
     multi = k >= 3 or any(len(t) >= 2 for t in case["teams"])
     for tp, pp in payload["perms"]:
